@@ -1040,12 +1040,16 @@ func split(str, sep string) (Vector, error) {
 
 func rename_keys(data, alternative HashMap) (HashMap, error) {
 	output := map[string]MalType{}
+	// keys that are not renamed first, so that a renamed key wins over an existing one
+	// whatever the iteration order (as in Clojure)
 	for k, v := range data.Val {
-		newKey, ok := alternative.Val[k]
-		if ok {
-			output[newKey.(string)] = v
-		} else {
+		if _, ok := alternative.Val[k]; !ok {
 			output[k] = v
+		}
+	}
+	for k, v := range data.Val {
+		if newKey, ok := alternative.Val[k]; ok {
+			output[newKey.(string)] = v
 		}
 	}
 	return HashMap{
